@@ -84,7 +84,7 @@ static void run_case(vf::Ctx& ctx, const Fac& fac, const Spec& sp, SortRule rule
     std::unique_ptr<typename Fac::Solver> es;
     try { ops = fac.make_ops(); es = fac.make_solver(*ops); }
     catch (const std::exception&) { ctx.count("operator_refused_input"); ctx.count("evals"); return; }
-    const long maxit = ctx.thorough ? 1000 : 300;
+    const long maxit = ctx.thorough && tag.empty() ? 1000 : 300;   // corpus cases are the same in both tiers
     long ret = -1;
     try { es->init(); ret = (long) es->compute(rule, maxit, T(1e-10), fac.sort_rules()[0]); }
     catch (const std::exception&) { ctx.count("compute_exception"); ctx.count("evals"); return; }
@@ -241,7 +241,7 @@ void vf_run_case(vf::Ctx& ctx, long idx)
     const int base = 2 * d.nev + 1 + (gen ? 1 : 0);
     int room = roomk == 0 ? (int) r.range(0, 9) : (roomk == 1 ? (int) r.range(10, 19) : (int) r.range(20, 30));
     d.ncv = base + room;
-    d.n = d.ncv + (int) r.range(5, ctx.thorough ? 80 : 40);
+    d.n = d.ncv + (int) r.range(5, ctx.thorough && !corpus ? 80 : 40);
     if (roomk == 3) { d.n = (int) r.range(std::max(base + 1, 8), 40); d.ncv = d.n; }
     static const char* ROOM[] = {"tight", "medium", "roomy", "full"};
     const int n = d.n;
